@@ -868,6 +868,38 @@ def rule_M9(ctx, classes=None):
                 if bits:
                     sel[i] = bits
                     nsel += 1
+            # the statement form of a selection: `if (mask & BIT) v = a; else v = b;`
+            for i, n in f.all_nodes():
+                if n['k'] != 'IfStmt' or n.get('else', -1) < 0 or n.get('then', -1) < 0:
+                    continue
+                pure, has_and = Lic._pure_mask_cond(lic0, n['cond'], 0)
+                if not (pure and has_and):
+                    continue
+                pos, neg = fl.cond2(n['cond'], fl.env_at(n['cond']))
+                if pos is None:
+                    continue
+                bits = {int(l[0].rsplit(':', 1)[1]) for c in pos for l in c if l[0].startswith('b:') and l[1]}
+                if not bits:
+                    continue
+
+                def single_assign(root):
+                    m = f.nodes[root]
+                    while m['k'] == 'CompoundStmt' and len(m['ch']) == 1:
+                        root = m['ch'][0]
+                        m = f.nodes[root]
+                    root = f.strip(root)
+                    m = f.nodes[root]
+                    if m['k'] == 'BinaryOperator' and m.get('op') == '=':
+                        ln = f.nodes[f.strip(m['ch'][0])]
+                        if ln['k'] == 'DeclRefExpr':
+                            return ln['d'], m['ch'][1]
+                    return None
+                st, se = single_assign(n['then']), single_assign(n['else'])
+                if st and se and st[0] == se[0]:
+                    for rhs in (st[1], se[1]):
+                        sel[f.strip(rhs)] = bits
+                        sel[rhs] = bits
+                    nsel += 1
             if not sel:
                 continue
             # variable taint in lexical order
